@@ -73,6 +73,10 @@ CHECKS = {
                      "Failing programs are classified semantically by variant semantics reproducing the known deviations (eager and/or hoisting, for-target preset).", ref="§7 C08",
                 note="Trusted: Lean kernel + standard axioms; harness/pysem.py (abstraction of ast); the reaching-definition abstraction and the truthiness-memo policy (identical in the CPython oracle); atoms do not raise. "
                      "When the product exceeds 200 000 pairs the Lean verdict is 'inconclusive' and the bounded CPython comparison decides (counted in evidence)."),
+    "C07": dict(cat="translation_validation", tech="Lean 4: verified simulation checker (pySim_sound) between the reference semantics of the original and of the regenerated function; CPython runs of both on every decision sequence up to a bound; exception class and compile check of the real pipeline",
+                text="Every generated function goes through the real AST2SCFG → restructure → SCFG2AST. The pipeline may raise NotImplementedError and nothing else; the regenerated source must compile; original and regenerated function are abstracted and compared by the Lean certificate checker (equal traces for ALL decision sequences, Scfg.C08.pySim_sound) and executed natively by CPython on every decision sequence up to depth 7. "
+                     "Differences are classified semantically against the variant semantics of the known front-end deviations; crashes by the precondition they need in the front end's own CFG.", ref="§7 C07",
+                note="As C08. Arguments are symbolic (oracle values), so 'for every argument tuple' is covered up to the oracle's adversarial truthiness/iteration decisions; exceptions raised by atoms are not modelled."),
 }
 
 NOT_YET = {}
